@@ -544,7 +544,9 @@ def run(ctx):
     ctx.guarded('C17-D5', 'readers@derivation', d5_derivation, ctx)
     ctx.guarded('C17-D1', 'sfcf@pairing', d6_sfcf_pairing, ctx)
     ctx.guarded('C17-D5', 'openQCD@relabelling', d7_relabelling, ctx)
-    from .. import unusedparams, leakedloop
+    from .. import unusedparams, leakedloop, aliasloop
+    for mn_ in ('input.openQCD', 'input.hadrons', 'input.sfcf', 'input.misc', 'input.utils'):
+        ctx.guarded('C17-D5', mn_ + '@charset-strip', aliasloop.charset_strip, ctx, 'C17-D5', ctx.repo.mod(mn_))
     ctx.rule('C17-D6', 'every accepted option is read (no silently ignored parameter); no loop variable read after its loop')
     for mn_ in ('input.openQCD', 'input.sfcf', 'input.hadrons', 'input.misc', 'input.utils'):
         ctx.guarded('C17-D6', mn_ + '@parameters', unusedparams.check, ctx, 'C17-D6', ctx.repo.mod(mn_))
@@ -553,6 +555,7 @@ def run(ctx):
 
 
 SELFTEST = [
+    ('suffix-by-rstrip', 'pyerrors/input/hadrons.py', 'n.replace(".h5", "")', 'n.rstrip(".h5")', 'C17-D5'),
     ('cosort-after-key-sorted', 'pyerrors/input/openQCD.py', "    names = [name for _, name in sorted(zip(files, names), key=lambda pair: pair[0])]\n    files = sorted(files)\n", "    files = sorted(files)\n    names = [name for _, name in sorted(zip(files, names), key=lambda pair: pair[0])]\n", 'C17-D1'),
     ('fix-reverted-rwms', 'pyerrors/input/openQCD.py', "        rep_names = names\n\n    print_err = 0", "        rep_names = names\n\n    rep_names = sort_names(rep_names)\n\n    print_err = 0", 'C17-D1'),
     ('fix-reverted-flow', 'pyerrors/input/openQCD.py', "        deltas.append(Q_top)\n\n    idl = [", "        deltas.append(Q_top)\n\n    rep_names = sort_names(rep_names)\n\n    idl = [", 'C17-D1'),
